@@ -1,7 +1,7 @@
 from vlib.core import *
 
 META = dict(
-    level_text="Proved: (kernel level) the Arnoldi/Lanczos kernels init, expand_basis, factorize_from (both), and the restart's re-factorization are written once as computations over an operator that may fail (Model/FaultOp.lean, free monad on `apply the operator`), by threading the effect through the same step structure as the total models; with an operator that never fails they equal the total models of C07/C05 in value and operation counter (c14_kernel_faultfree, _models, _solver); for EVERY computation over the operator, every counter start and every fault index k in the call's window, the call ends with exactly the user's exception, makes no later application (the operator log is the length-k prefix of the fault-free log) and leaves the by-reference counter at k-1 (c14_kernel_propagates, c14_opcount_prefix, c14_kernel_unaffected); (solver level) for every fault index 1 <= k <= num_operations() of the fault-free init(v); compute(args), from any prior object state, the faulted init or compute ends with exactly that exception (c14_propagates for the symmetric solver built from the fault-aware kernels; c14_propagates_any_kernels for any kernel record whose operator-applying kernels agree-or-fault); no model function catches, nothing is invented (c14_no_invention), info()/num_iterations() are not half-updated (c14_fault_keeps_status); from ANY state left behind, init(v); compute(args) is observationally identical to a solver that never saw the fault (c14_recover, under Orch.Respects); regenerated from the headers on every run: no raw new/delete/malloc/free and no try/catch in any function of the solver, factorization, decomposition and wrapper classes, only the three standard exception types are thrown, no rethrow (c14_no_leak with the unwinding model c14_unwind_frees_all), and SparseRegularInverse::solve throws std::runtime_error exactly on CG failure and assigns only its own status (c14_lib_thrower). Tie to the running code: exhaustive fault index sweep k = 1..K on all twelve solver configurations (A- and B-operator applications in one index), exception identity (serial number, zero copies), heap-block balance via the ASan allocator hooks, bitwise recovery, pairs of faults; the symmetric family's fault histories are replayed bit-exactly by the model.",
+    level_text="Proved: (kernel level) the Arnoldi/Lanczos kernels init, expand_basis, factorize_from (both), and the restart's re-factorization are written once as computations over an operator that may fail (Model/FaultOp.lean, free monad on `apply the operator`), by threading the effect through the same step structure as the total models; with an operator that never fails they equal the total models of C07/C05 in value and operation counter (c14_kernel_faultfree, _models, _solver); for EVERY computation over the operator, every counter start and every fault index k in the call's window, the call ends with exactly the user's exception, makes no later application (the operator log is the length-k prefix of the fault-free log) and leaves the by-reference counter at k-1 (c14_kernel_propagates, c14_opcount_prefix, c14_kernel_unaffected); (solver level) for every fault index 1 <= k <= num_operations() of the fault-free init(v); compute(args), from any prior object state, the faulted init or compute ends with exactly that exception (c14_propagates for the symmetric solver built from the fault-aware kernels; c14_propagates_any_kernels for any kernel record whose operator-applying kernels agree-or-fault); no model function catches, nothing is invented (c14_no_invention), info()/num_iterations() are not half-updated (c14_fault_keeps_status); from ANY state left behind, init(v); compute(args) is observationally identical to a solver that never saw the fault (c14_recover, under Orch.Respects); regenerated from the headers on every run: no raw new/delete/malloc/free in any function of the solver, factorization, decomposition and wrapper classes, the only try/catch is the catch-all of GenEigsComplexShiftSolver::sort_ritzpair whose handler is exactly `m_op.set_shift(m_sigmar, m_sigmai); throw;` (restore the user's operator, rethrow the same exception), otherwise only the three standard exception types are thrown (c14_no_leak with the unwinding model c14_unwind_frees_all), and SparseRegularInverse::solve throws std::runtime_error exactly on CG failure and assigns only its own status (c14_lib_thrower). Tie to the running code: exhaustive fault index sweep k = 1..K on all twelve solver configurations (A- and B-operator applications in one index), exception identity (serial number, zero copies), heap-block balance via the ASan allocator hooks, bitwise recovery, pairs of faults; the symmetric family's fault histories are replayed bit-exactly by the model.",
     note="Lean kernel + standard axioms; translator/footprint extractor; the B operator is a pure parameter of the kernel-level model (B-operator faults are covered by the all-kernels orchestration theorems and by the exhaustive sweep, not by a kernel-level model); the half-updated object state at the throw point is not modelled field by field (nothing reads it before init(): c14_recover); Respects for the concrete kernels is C06's obligation; C++ unwinding semantics modelled (leakedAt), not verified",
     technique="Lean 4 proof (free-monad interpretation theorems by induction over computations; agree-or-fault simulation + counter invariant through the restart loop) + regenerated structural footprint decided by `decide` + exhaustive fault injection on the implementation with bit-exact model replay",
     design="§5 C14", harnesses=['c14'])
